@@ -46,6 +46,7 @@ def gen(run):
     raw += list(W.frame_orders(2 if quick else 3))
     raw += list(W.empty_trailers())
     raw += list(W.dim_mismatch())
+    raw += list(W.vp8x_fields())
     if not quick:
         raw += list(W.sequences(5, FLAGSETS_Q, allows=(True,), sample=0.15, rng=run.rng))
     lines = W.with_tables(run, [l for l, _ in raw])
